@@ -315,7 +315,9 @@ class Gen:
         r = self.rnd
         mods = []
         for i in range(self.n_modules):
-            mods.append(dict(name="m%d" % i, prefix="p%d" % i, ns="urn:m%d" % i, belongs=None, imports=[], includes=[], body=[],
+            # own prefixes are local names: now and then two modules choose the same one
+            mods.append(dict(name="m%d" % i, prefix=("p0" if i and r.random() < 0.25 else "p%d" % i), ns="urn:m%d" % i,
+                             belongs=None, imports=[], includes=[], body=[],
                              augments=[], deviations=[]))
         # imports: later modules import earlier ones (and sometimes the other way round) under arbitrary prefixes
         for i, m in enumerate(mods):
